@@ -203,9 +203,10 @@ def trace_events(optic, rays, st, picks, cls):
         Pm = np.asarray(rays.p[r])
         # a ray is lost when its geometry is non-finite; a ray that arrives (finite direction) with a
         # non-finite intensity or polarization matrix is judged (clause field_finite)
-        if not all(math.isfinite(v) for v in list(d0) + list(d)):
-            skipped += 1
-            continue
+        pos = (float(rays.x[r]), float(rays.y[r]), float(rays.z[r]))
+        if not all(math.isfinite(v) for v in list(d0) + list(d) + list(pos)):
+            skipped += 1        # (a ray that does not reach the image surface has a non-finite position there
+            continue            #  even when its direction record is finite)
         s, p = launch_basis(d0)
         out.append({"t": "trace", "d0": [dy(v) for v in d0], "d": [dy(v) for v in d],
                     "sv": [dy(v) for v in s], "pv": [dy(v) for v in p], "st": state_rec(st),
@@ -289,7 +290,7 @@ def lens_job(args):
             ib = np.array(rb.i, dtype=float)
             ntr += 3
             for r in picks:
-                if not all(math.isfinite(float(t.N[r])) for t in (ru, ra, rb)):
+                if not all(math.isfinite(float(t.N[r])) and math.isfinite(float(t.x[r])) for t in (ru, ra, rb)):
                     skipped += 1        # the ray did not reach the image
                     continue
                 events.append({"t": "unpol", "iu": dy(iu[r]), "ia": dy(ia[r]), "ib": dy(ib[r]),
